@@ -942,6 +942,90 @@ fn check_c12(rep: &mut Report, s: &Scen, o: &RunOut, replay: &Value) {
     }
 }
 
+
+/// Directed: the protocol is blocked on a full event channel (the user stopped polling after a
+/// batch of 3 x 4096 open requests to unknown peers, each of which fails at once) while the
+/// remote closes the open stream; the user then drains, sees the stream closed and asks to open
+/// it again at once. That request goes to a connected peer with nothing in progress and must be
+/// answered.
+async fn clogged_reopen(seed: u64, exec: &ChaosExecutor) -> Result<(bool, bool, u32, u32), String> {
+    let mut rng = Rng::new(seed);
+    let mk = |s: u64| {
+        let mut cfg = NodeCfg::new(s);
+        cfg.chaos = 0.0;
+        cfg.keep_alive = Duration::from_secs(60);
+        let (nc, h) = NotifConfig::new(ProtocolName::from(PROTO), 256, vec![1, 2, 3, 4], Vec::new(), true, 16, 16, false);
+        (cfg.builder(exec).with_notification_protocol(nc), h)
+    };
+    let (ba, mut ha) = mk(rng.u64());
+    let (bb, mut hb) = mk(rng.u64());
+    let a = Node::spawn(ba)?;
+    let b = Node::spawn(bb)?;
+    let (pa, pb) = (a.peer, b.peer);
+    a.dial_address(b.addr.clone()).await?;
+    if a.wait_event(Duration::from_secs(5), |e| matches!(e, NodeEvent::Established { peer, .. } if *peer == pb)).await.is_none() {
+        return Err("not connected".into());
+    }
+    let _ = b.wait_event(Duration::from_secs(5), |e| matches!(e, NodeEvent::Established { peer, .. } if *peer == pa)).await;
+    ha.open_substream(pb).await.map_err(|e| format!("{e:?}"))?;
+    // both sides see the stream open
+    let mut a_open = false;
+    let mut b_open = false;
+    let dl = tokio::time::Instant::now() + Duration::from_secs(10);
+    while !(a_open && b_open) {
+        tokio::select! {
+            e = ha.next() => if let Some(NotificationEvent::NotificationStreamOpened { .. }) = e { a_open = true },
+            e = hb.next() => match e {
+                Some(NotificationEvent::NotificationStreamOpened { .. }) => b_open = true,
+                Some(NotificationEvent::ValidateSubstream { peer, .. }) => hb.send_validation_result(peer, ValidationResult::Accept),
+                _ => {}
+            },
+            _ = tokio::time::sleep_until(dl) => return Err("stream did not open".into()),
+        }
+    }
+    // A stops polling and floods its own protocol with requests that fail at once
+    let unknown: Vec<PeerId> = (0..3 * 4096)
+        .map(|_| {
+            let mut sk = [0u8; 32];
+            rng.fill(&mut sk);
+            litep2p::crypto::ed25519::Keypair::from(litep2p::crypto::ed25519::SecretKey::try_from_bytes(&mut sk).expect("key")).public().to_peer_id()
+        })
+        .collect();
+    let _ = ha.open_substream_batch(unknown.into_iter()).await;
+    tokio::time::sleep(Duration::from_millis(300)).await;
+    // the remote closes the stream while A's protocol is blocked on its event channel
+    hb.close_substream(pa).await;
+    tokio::time::sleep(Duration::from_millis(300)).await;
+    // A drains; on the close it asks to open again at once
+    let mut saw_closed = false;
+    let mut reopened = false;
+    let (mut opened, mut failed) = (0u32, 0u32);
+    let dl = tokio::time::Instant::now() + Duration::from_secs(30);
+    let mut answer_deadline: Option<tokio::time::Instant> = None;
+    loop {
+        let until = answer_deadline.unwrap_or(dl).min(dl);
+        tokio::select! {
+            e = ha.next() => match e {
+                Some(NotificationEvent::NotificationStreamClosed { peer }) if peer == pb => {
+                    saw_closed = true;
+                    if !reopened {
+                        reopened = true;
+                        let _ = ha.open_substream(pb).await;
+                        answer_deadline = Some(tokio::time::Instant::now() + Duration::from_secs(15));
+                    }
+                }
+                Some(NotificationEvent::NotificationStreamOpened { peer, .. }) if peer == pb && reopened => { opened += 1; break; }
+                Some(NotificationEvent::NotificationStreamOpenFailure { peer, .. }) if peer == pb && reopened => { failed += 1; break; }
+                Some(_) => {}
+                None => break,
+            },
+            e = hb.next() => if let Some(NotificationEvent::ValidateSubstream { peer, .. }) = e { hb.send_validation_result(peer, ValidationResult::Accept) },
+            _ = tokio::time::sleep_until(until) => break,
+        }
+    }
+    Ok((saw_closed, reopened, opened, failed))
+}
+
 pub fn run(ctx: &Ctx, prop: &'static str) -> Report {
     let mut rep = Report::new(
         prop,
@@ -952,6 +1036,38 @@ pub fn run(ctx: &Ctx, prop: &'static str) -> Report {
     rep.assume("bounded progress only in the probe phases (48 s window = 4 x (10 s negotiation + 2 s substream open)); a timer-lag canary downgrades starved probes");
     let workers = 2 + (ctx.seed as usize + ctx.shard) % 3;
     let rt = tokio::runtime::Builder::new_multi_thread().worker_threads(workers).enable_all().build().expect("runtime");
+    // directed (C11): re-open after a close seen through a clogged event channel
+    let directed_replay = ctx.replay.as_ref().map(|p| std::fs::read_to_string(p).unwrap_or_default().contains("clogged-reopen"));
+    if prop == "C11" && directed_replay != Some(false) && (ctx.replay.is_some() || ctx.shard % 2 == 0) {
+        let seed = ctx.rng("c11-clogged").u64();
+        let r = rt.block_on(async {
+            let exec = ChaosExecutor::new(tokio::runtime::Handle::current(), ctx.seed, 0.0);
+            clogged_reopen(seed, &exec).await
+        });
+        rep.case(&("clogged-reopen", seed), true);
+        match r {
+            Ok((saw_closed, reopened, opened, failed)) => {
+                if !saw_closed || !reopened {
+                    rep.hit("c11_clogged_reopen_precondition_not_reached");
+                } else if opened + failed == 0 {
+                    rep.violation(
+                        "C11/directed/open-request-never-answered/after-close-seen-through-clogged-event-channel",
+                        "the user drained 12288 open-failure events, saw the stream to a connected peer closed by the remote and asked to open it again: neither opened nor open-failure within 15 s".to_string(),
+                        json!({"family": "clogged-reopen", "seed": seed}),
+                    );
+                } else {
+                    rep.hit("c11_clogged_reopen_answered");
+                }
+            }
+            Err(e) => {
+                rep.hit("c11_clogged_reopen_setup_failed");
+                rep.hit(&format!("c11_clogged_reopen_setup_failed_{}", e.replace([' ', ':', '(', ')', '"'], "_")));
+            }
+        }
+        if directed_replay == Some(true) {
+            return rep;
+        }
+    }
     let scenarios: Vec<Scen> = if let Some(path) = &ctx.replay {
         let v: Value = serde_json::from_slice(&std::fs::read(path).expect("replay")).expect("json");
         let seed = v["replay"]["gen_seed"].as_u64().unwrap_or(1);
@@ -1048,6 +1164,7 @@ pub fn run(ctx: &Ctx, prop: &'static str) -> Report {
         rep.floor("c11_probe_runs", 15);
         rep.floor("c11_fresh-peer-probe_runs", 15);
         rep.floor("c11_cut_checks", 10);
+        rep.floor("c11_clogged_reopen_answered", 3);
     } else {
         rep.floor("c12_sends", 500);
         rep.floor("c12_notifications_delivered", 200);
